@@ -2,54 +2,73 @@ import Grexv.Lemmas.FragR
 
 /-
 Exactness of the printed `-r` pattern at the level of denotations: the items the parser reads from the printed text denote a string
-**iff** some label sequence of the expression's symbol-level language spells it.
+**iff** some label sequence of the expression's symbol-level language spells it — every label `{m,n}` contributing `k` consecutive
+matches of its atoms (code points, up to simple case folding under `(?i)`, and shorthand-class tokens), `m ≤ k ≤ n`.
 -/
 set_option linter.unusedSimpArgs false
 set_option linter.unusedVariables false
 namespace Grexv
 open Spec
 
-theorem atoms_exact (as : List Atom) (h : ∀ a ∈ as, ∃ c, a = Atom.chr c) (s : Str) : atomsDen false as s ↔ s = untok as := by
-  induction as generalizing s with
-  | nil => simp [atomsDen, untok]
-  | cons a r ih =>
-    obtain ⟨c, rfl⟩ := h _ List.mem_cons_self
-    have ihr := ih (fun x hx => h x (List.mem_cons_of_mem _ hx))
-    simp only [atomsDen, untok, atomDen, chrMatches_false]
-    constructor
-    · rintro ⟨x, r', rfl, rfl, hr⟩; rw [(ihr r').mp hr]
-    · rintro rfl; exact ⟨c, untok r, rfl, rfl, (ihr _).mpr rfl⟩
+/-- the atoms of a label -/
+def gAtoms (g : Grapheme) : List Atom := g.chars.flatMap fun s => tokens s
 
-theorem powL_exact (L : Str → Prop) (u : Str) (hL : ∀ s, L s ↔ s = u) : ∀ k s, powL L k s ↔ s = (List.replicate k u).flatten
-  | 0, s => by simp [powL]
+/-- the strings a sequence of counted labels stands for, atom by atom -/
+def SpellsA (i : Bool) : Word → Str → Prop
+  | [], s => s = []
+  | l :: ls, s => ∃ k u v, l.min ≤ k ∧ k ≤ l.max ∧ s = u ++ v ∧ powL (atomsDen i (gAtoms l)) k u ∧ SpellsA i ls v
+
+theorem powL_congr (L1 L2 : Str → Prop) (h : ∀ s, L1 s ↔ L2 s) : ∀ k s, powL L1 k s ↔ powL L2 k s
+  | 0, s => Iff.rfl
+  | k + 1, s => by
+    simp only [powL]
+    constructor
+    · rintro ⟨u, v, rfl, hu, hv⟩; exact ⟨u, v, rfl, (h u).mp hu, (powL_congr L1 L2 h k v).mp hv⟩
+    · rintro ⟨u, v, rfl, hu, hv⟩; exact ⟨u, v, rfl, (h u).mpr hu, (powL_congr L1 L2 h k v).mpr hv⟩
+
+theorem powL_one (L : Str → Prop) (s : Str) : powL L 1 s ↔ L s := by
+  simp only [powL]
+  constructor
+  · rintro ⟨u, v, rfl, hu, rfl⟩; simpa using hu
+  · intro h; exact ⟨s, [], by simp, h, rfl⟩
+
+/-- `k` consecutive matches of a sequence of atoms = one match of the sequence repeated `k` times -/
+theorem powL_atoms (i : Bool) (as : List Atom) : ∀ k s, powL (atomsDen i as) k s ↔ atomsDen i (List.replicate k as).flatten s
+  | 0, s => by simp [powL, atomsDen]
   | k + 1, s => by
     simp only [powL, List.replicate_succ, List.flatten_cons]
+    rw [atomsDen_append]
     constructor
-    · rintro ⟨a, b, rfl, ha, hb⟩
-      rw [(hL a).mp ha, (powL_exact L u hL k b).mp hb]
-    · rintro rfl
-      exact ⟨u, _, rfl, (hL u).mpr rfl, (powL_exact L u hL k _).mpr rfl⟩
+    · rintro ⟨u, v, rfl, hu, hv⟩; exact ⟨u, v, rfl, hu, (powL_atoms i as k v).mp hv⟩
+    · rintro ⟨u, v, rfl, hu, hv⟩; exact ⟨u, v, rfl, hu, (powL_atoms i as k v).mpr hv⟩
 
-/-- counts fixed: the cluster spells exactly its expansion -/
-theorem spells_fixed : ∀ (gs : List Grapheme), (∀ r ∈ gs, r.min = r.max) → ∀ s, Dfa.Spells gs s ↔ s = (expandAll gs).flatten
-  | [], _, s => by simp [Dfa.Spells, expandAll]
+theorem expand_tokens (g : Grapheme) : g.expand.flatMap (fun s => tokens s) = (List.replicate g.min (gAtoms g)).flatten := by
+  simp only [Grapheme.expand, gAtoms]
+  induction g.min with
+  | zero => simp
+  | succ n ih => simp only [List.replicate_succ, List.flatten_cons, List.flatMap_append, ih]
+
+/-- counts fixed: the cluster spells exactly the strings that match the atoms of its expansion -/
+theorem spellsA_fixed (i : Bool) : ∀ (gs : List Grapheme), (∀ r ∈ gs, r.min = r.max) → ∀ s,
+    SpellsA i gs s ↔ atomsDen i ((expandAll gs).flatMap fun s => tokens s) s
+  | [], _, s => by simp [SpellsA, expandAll, atomsDen]
   | g :: gs, h, s => by
     have hg := h g List.mem_cons_self
-    have ih := spells_fixed gs (fun r hr => h r (List.mem_cons_of_mem _ hr))
-    rw [expandAll_flatten_cons]
-    simp only [Dfa.Spells]
+    have ih := spellsA_fixed i gs (fun r hr => h r (List.mem_cons_of_mem _ hr))
+    simp only [SpellsA, expandAll, List.flatMap_cons, List.flatMap_append]
+    rw [atomsDen_append, expand_tokens]
     constructor
-    · rintro ⟨k, v, hk1, hk2, rfl, hv⟩
+    · rintro ⟨k, u, v, hk1, hk2, rfl, hu, hv⟩
       have : k = g.min := by omega
       subst this
-      rw [(ih v).mp hv]
-    · rintro rfl
-      exact ⟨g.min, _, Nat.le_refl _, by omega, rfl, (ih _).mpr rfl⟩
+      exact ⟨u, v, rfl, (powL_atoms i _ _ u).mp hu, (ih v).mp hv⟩
+    · rintro ⟨u, v, rfl, hu, hv⟩
+      exact ⟨g.min, u, v, Nat.le_refl _, by omega, rfl, (powL_atoms i _ _ u).mpr hu, (ih v).mpr hv⟩
 
-/-- the unit pattern of a counted grapheme without nested repetitions, both directions -/
+/-- the unit pattern of a counted grapheme without nested repetitions -/
 theorem gItems_flat_iff (cap : Bool) (ass : List (List Atom)) (hok : AssOK ass) (mn mx : Nat) (hc : Counted mn mx) :
     ∃ body, gItems cap (Grapheme.mk (ass.map untok) [] mn mx) = [Pat.rep body mn (some mx) true] ∧
-      ∀ s, body.denC false s ↔ atomsDen false ass.flatten s := by
+      ∀ i s, body.denC i s ↔ atomsDen i ass.flatten s := by
   have hcne : ¬ (mn = 1 ∧ mx = 1) := by rcases hc with h | ⟨h, h'⟩ <;> omega
   by_cases hs : SingleUnit ass
   · obtain ⟨a, rfl, hne92⟩ := hs
@@ -58,8 +77,8 @@ theorem gItems_flat_iff (cap : Bool) (ass : List (List Atom)) (hok : AssOK ass) 
     refine ⟨atomPat a, ?_, ?_⟩
     · simp only [gItems, hcne, ite_false, List.isEmpty_nil, ite_true, hsb]
       simp [hta]
-    · intro s
-      rw [Pat.denC_eq_den false _ (frag_atomPat a), den_atomPat]
+    · intro i s
+      rw [Pat.denC_eq_den i _ (frag_atomPat a), den_atomPat]
       simp only [List.flatten_cons, List.flatten_nil, List.append_nil, atomsDen]
       constructor
       · rintro ⟨x, rfl, hx⟩; exact ⟨x, [], rfl, hx, rfl⟩
@@ -68,46 +87,39 @@ theorem gItems_flat_iff (cap : Bool) (ass : List (List Atom)) (hok : AssOK ass) 
       cases hb' : singleB (ass.map untok) with
       | false => rfl
       | true => exact absurd ((singleB_iff ass hok).mp hb') hs
-    refine ⟨Pat.grp cap (catList (unitItems ass)), ?_, fun s => unit_den cap ass false s⟩
+    refine ⟨Pat.grp cap (catList (unitItems ass)), ?_, fun i s => unit_den cap ass i s⟩
     simp only [gItems, hcne, ite_false, List.isEmpty_nil, ite_true, hsb, Bool.false_eq_true, tokens_flat ass hok.2, unitItems_eq]
 
 mutual
-/-- **one grapheme, exactly** its items denote its characters repeated `k` times for the admissible `k`, and nothing else -/
-theorem gExact (cap : Bool) : (g : Grapheme) → GOK g → GSem g → ∀ s,
-    denLC false (gItems cap g) s ↔ ∃ k, g.min ≤ k ∧ k ≤ g.max ∧ s = (List.replicate k g.chars.flatten).flatten
+/-- **one grapheme, exactly** its items denote `k` consecutive matches of its atoms for the admissible `k`, and nothing else -/
+theorem gExact (i cap : Bool) : (g : Grapheme) → GOK g → GSem g → ∀ s,
+    denLC i (gItems cap g) s ↔ ∃ k, g.min ≤ k ∧ k ≤ g.max ∧ powL (atomsDen i (gAtoms g)) k s
   | .mk chars reps mn mx, hok, hsem, s => by
-    simp only [Grapheme.min, Grapheme.max, Grapheme.chars]
+    simp only [Grapheme.min, Grapheme.max]
     simp only [GSem] at hsem
-    obtain ⟨hchr, hle, hnest⟩ := hsem
+    obtain ⟨hle, hnest⟩ := hsem
     rcases GOK_cases chars reps mn mx hok with ⟨as, hne, hasok, rfl, rfl, rfl, rfl⟩ | ⟨ass, hass, rfl, rfl, hc, hb⟩ |
       ⟨ass, hass, rfl, h2, hr, hl, hc, hb⟩
     · -- plain
       have hi : gItems cap (Grapheme.mk [untok as] [] 1 1) = as.map atomPat := by simp [gItems, tokens_untok as hasok]
-      have hch : ∀ a ∈ as, ∃ c, a = Atom.chr c := fun a ha =>
-        hchr (untok as) (by simp) a (by rw [tokens_untok as hasok]; exact ha)
-      rw [hi, denLC_eq_denL false _ (by intro p hp; obtain ⟨a, _, rfl⟩ := List.mem_map.mp hp; exact frag_atomPat a),
-        denL_atoms, atoms_exact as hch]
+      have ha : gAtoms (Grapheme.mk [untok as] [] 1 1) = as := by simp [gAtoms, Grapheme.chars, tokens_untok as hasok]
+      rw [hi, ha, denLC_eq_denL i _ (by intro p hp; obtain ⟨a, _, rfl⟩ := List.mem_map.mp hp; exact frag_atomPat a), denL_atoms]
       constructor
-      · rintro rfl; exact ⟨1, Nat.le_refl _, Nat.le_refl _, by simp⟩
-      · rintro ⟨k, h1, h2, rfl⟩
+      · intro h; exact ⟨1, Nat.le_refl _, Nat.le_refl _, (powL_one _ s).mpr h⟩
+      · rintro ⟨k, h1, h2, hp⟩
         have : k = 1 := by omega
-        subst this; simp
+        subst this; exact (powL_one _ s).mp hp
     · -- counted, flat
       obtain ⟨body, hi, hbody⟩ := gItems_flat_iff cap ass hass mn mx hc
-      have hchall : ∀ a ∈ ass.flatten, ∃ c, a = Atom.chr c := by
-        intro a ha
-        obtain ⟨as, has, haas⟩ := List.mem_flatten.mp ha
-        exact hchr (untok as) (List.mem_map_of_mem has) a (by rw [tokens_untok as (hass.2 as has).2]; exact haas)
-      have hL : ∀ u, body.denC false u ↔ u = (ass.map untok).flatten := by
-        intro u
-        rw [hbody u, atoms_exact _ hchall, untok_flatten]
-      rw [hi, denLC_single]
+      have ha : gAtoms (Grapheme.mk (ass.map untok) [] mn mx) = ass.flatten := by
+        simp only [gAtoms, Grapheme.chars]; exact tokens_flat ass hass.2
+      rw [hi, ha, denLC_single]
       simp only [Pat.denC, rangeL]
       constructor
       · rintro ⟨k, h1, h2, hp⟩
-        exact ⟨k, h1, by omega, (powL_exact _ _ hL k s).mp hp⟩
-      · rintro ⟨k, h1, h2, rfl⟩
-        exact ⟨k, h1, by omega, (powL_exact _ _ hL k _).mpr rfl⟩
+        exact ⟨k, h1, by omega, (powL_congr _ _ (hbody i) k s).mp hp⟩
+      · rintro ⟨k, h1, h2, hp⟩
+        exact ⟨k, h1, by omega, (powL_congr _ _ (hbody i) k s).mpr hp⟩
     · -- counted, nested
       have hcne : ¬ (mn = 1 ∧ mx = 1) := by rcases hc with h | ⟨h, h'⟩ <;> omega
       have hre : reps.isEmpty = false := by
@@ -119,92 +131,105 @@ theorem gExact (cap : Bool) : (g : Grapheme) → GOK g → GSem g → ∀ s,
         simp only [gItems, hcne, ite_false, hre, Bool.false_eq_true]
       rcases hnest with h0 | ⟨hexp, hsl, hfix⟩
       · exact absurd h0 hr
-      · have hL : ∀ u, (Pat.grp cap (catList (gItemsL cap reps))).denC false u ↔ u = (ass.map untok).flatten := by
+      · have hL : ∀ u, (Pat.grp cap (catList (gItemsL cap reps))).denC i u ↔
+            atomsDen i (gAtoms (Grapheme.mk (ass.map untok) reps mn mx)) u := by
           intro u
-          simp only [Pat.denC]
-          rw [denC_catList, gExactL cap reps hl hsl u, spells_fixed reps hfix u, hexp]
+          simp only [Pat.denC, gAtoms, Grapheme.chars]
+          rw [denC_catList, gExactL i cap reps hl hsl u, spellsA_fixed i reps hfix u, hexp]
         rw [hi, denLC_single]
         simp only [Pat.denC, rangeL]
         constructor
         · rintro ⟨k, h1, h2, hp⟩
-          exact ⟨k, h1, by omega, (powL_exact _ _ hL k s).mp hp⟩
-        · rintro ⟨k, h1, h2, rfl⟩
-          exact ⟨k, h1, by omega, (powL_exact _ _ hL k _).mpr rfl⟩
+          exact ⟨k, h1, by omega, (powL_congr _ _ hL k s).mp hp⟩
+        · rintro ⟨k, h1, h2, hp⟩
+          exact ⟨k, h1, by omega, (powL_congr _ _ hL k s).mpr hp⟩
 /-- **one literal, exactly** its items denote the strings the cluster spells -/
-theorem gExactL (cap : Bool) : (gs : List Grapheme) → GOKL gs → GSemL gs → ∀ s, denLC false (gItemsL cap gs) s ↔ Dfa.Spells gs s
-  | [], _, _, s => by simp [gItemsL, denLC, Dfa.Spells]
+theorem gExactL (i cap : Bool) : (gs : List Grapheme) → GOKL gs → GSemL gs → ∀ s, denLC i (gItemsL cap gs) s ↔ SpellsA i gs s
+  | [], _, _, s => by simp [gItemsL, denLC, SpellsA]
   | g :: gs, hok, hsem, s => by
     simp only [GOKL, GSemL] at hok hsem
-    simp only [gItemsL, Dfa.Spells]
+    simp only [gItemsL, SpellsA]
     rw [denLC_append]
     constructor
     · rintro ⟨u, v, rfl, hu, hv⟩
-      obtain ⟨k, h1, h2, rfl⟩ := (gExact cap g hok.1 hsem.1 u).mp hu
-      exact ⟨k, v, h1, h2, rfl, (gExactL cap gs hok.2 hsem.2 v).mp hv⟩
-    · rintro ⟨k, v, h1, h2, rfl, hv⟩
-      exact ⟨_, v, rfl, (gExact cap g hok.1 hsem.1 _).mpr ⟨k, h1, h2, rfl⟩, (gExactL cap gs hok.2 hsem.2 v).mpr hv⟩
+      obtain ⟨k, h1, h2, hp⟩ := (gExact i cap g hok.1 hsem.1 u).mp hu
+      exact ⟨k, u, v, h1, h2, rfl, hp, (gExactL i cap gs hok.2 hsem.2 v).mp hv⟩
+    · rintro ⟨k, u, v, h1, h2, rfl, hp, hv⟩
+      exact ⟨u, v, rfl, (gExact i cap g hok.1 hsem.1 u).mpr ⟨k, h1, h2, hp⟩, (gExactL i cap gs hok.2 hsem.2 v).mpr hv⟩
 end
 
 /-! ### expressions -/
 
 /-- the strings spelled by the label sequences of the expression -/
-def Expr.strLangR (e : Expr) (s : Str) : Prop := ∃ ls, e.lang ls ∧ Dfa.Spells ls s
+def Expr.strLangR (i : Bool) (e : Expr) (s : Str) : Prop := ∃ ls, e.lang ls ∧ SpellsA i ls s
 
-theorem spells_append_iff (u v : Word) (s : Str) :
-    Dfa.Spells (u ++ v) s ↔ ∃ s1 s2, s = s1 ++ s2 ∧ Dfa.Spells u s1 ∧ Dfa.Spells v s2 := by
-  constructor
-  · exact spells_append u v s
-  · rintro ⟨s1, s2, rfl, h1, h2⟩
-    induction u generalizing s1 with
-    | nil => simp only [Dfa.Spells] at h1; subst h1; simpa using h2
-    | cons l u ih =>
-      obtain ⟨k, w, hk1, hk2, rfl, hw⟩ := h1
-      exact ⟨k, w ++ s2, hk1, hk2, by simp, ih w hw⟩
+theorem spellsA_append (i : Bool) : ∀ (u v : Word) (s : Str),
+    SpellsA i (u ++ v) s ↔ ∃ s1 s2, s = s1 ++ s2 ∧ SpellsA i u s1 ∧ SpellsA i v s2
+  | [], v, s => by
+    simp only [List.nil_append, SpellsA]
+    constructor
+    · intro h; exact ⟨[], s, rfl, rfl, h⟩
+    · rintro ⟨s1, s2, rfl, rfl, h⟩; simpa using h
+  | l :: u, v, s => by
+    simp only [List.cons_append, SpellsA]
+    constructor
+    · rintro ⟨k, a, w, hk1, hk2, rfl, ha, hw⟩
+      obtain ⟨s1, s2, rfl, h1, h2⟩ := (spellsA_append i u v w).mp hw
+      exact ⟨a ++ s1, s2, by simp, ⟨k, a, s1, hk1, hk2, rfl, ha, h1⟩, h2⟩
+    · rintro ⟨s1, s2, rfl, ⟨k, a, w, hk1, hk2, rfl, ha, hw⟩, h2⟩
+      exact ⟨k, a, w ++ s2, hk1, hk2, by simp, ha, (spellsA_append i u v _).mpr ⟨w, s2, rfl, hw, h2⟩⟩
 
-theorem strLangR_cat (a b : Expr) (s : Str) :
-    (Expr.cat a b).strLangR s ↔ ∃ u v, s = u ++ v ∧ a.strLangR u ∧ b.strLangR v := by
+theorem strLangR_cat (i : Bool) (a b : Expr) (s : Str) :
+    (Expr.cat a b).strLangR i s ↔ ∃ u v, s = u ++ v ∧ a.strLangR i u ∧ b.strLangR i v := by
   simp only [Expr.strLangR, Expr.lang]
   constructor
   · rintro ⟨ls, ⟨u, v, rfl, hu, hv⟩, hs⟩
-    obtain ⟨s1, s2, rfl, h1, h2⟩ := (spells_append_iff u v s).mp hs
+    obtain ⟨s1, s2, rfl, h1, h2⟩ := (spellsA_append i u v s).mp hs
     exact ⟨s1, s2, rfl, ⟨u, hu, h1⟩, ⟨v, hv, h2⟩⟩
   · rintro ⟨s1, s2, rfl, ⟨u, hu, h1⟩, ⟨v, hv, h2⟩⟩
-    exact ⟨u ++ v, ⟨u, v, rfl, hu, hv⟩, (spells_append_iff u v _).mpr ⟨s1, s2, rfl, h1, h2⟩⟩
+    exact ⟨u ++ v, ⟨u, v, rfl, hu, hv⟩, (spellsA_append i u v _).mpr ⟨s1, s2, rfl, h1, h2⟩⟩
 
-theorem strLangR_opt (e : Expr) (s : Str) : (Expr.rep e .question).strLangR s ↔ s = [] ∨ e.strLangR s := by
+theorem strLangR_opt (i : Bool) (e : Expr) (s : Str) : (Expr.rep e .question).strLangR i s ↔ s = [] ∨ e.strLangR i s := by
   simp only [Expr.strLangR, Expr.lang]
   constructor
   · rintro ⟨ls, rfl | hl, hs⟩
-    · left; simpa [Dfa.Spells] using hs
+    · left; simpa [SpellsA] using hs
     · right; exact ⟨ls, hl, hs⟩
   · rintro (rfl | ⟨ls, hl, hs⟩)
     · exact ⟨[], Or.inl rfl, rfl⟩
     · exact ⟨ls, Or.inr hl, hs⟩
 
-theorem strLangR_alt (os : List Expr) (s : Str) : (Expr.alt os).strLangR s ↔ ∃ o ∈ os, o.strLangR s := by
+theorem strLangR_alt (i : Bool) (os : List Expr) (s : Str) : (Expr.alt os).strLangR i s ↔ ∃ o ∈ os, o.strLangR i s := by
   simp only [Expr.strLangR, Expr.lang, Expr.langAny_iff]
   constructor
   · rintro ⟨ls, ⟨o, ho, hl⟩, hs⟩; exact ⟨o, ho, ls, hl, hs⟩
   · rintro ⟨o, ho, ls, hl, hs⟩; exact ⟨ls, ⟨o, ho, hl⟩, hs⟩
 
-theorem strLangR_cls (cs : List Nat) (s : Str) : (Expr.cls cs).strLangR s ↔ ∃ c ∈ cs, s = [c] := by
+theorem strLangR_cls (i : Bool) (cs : List Nat) (s : Str) :
+    (Expr.cls cs).strLangR i s ↔ ∃ c ∈ cs, ∃ x, s = [x] ∧ chrMatches i c x = true := by
   simp only [Expr.strLangR, Expr.lang]
+  have hat : ∀ c, gAtoms (Grapheme.ofStr [c]) = [Atom.chr c] := by
+    intro c; simp [gAtoms, Grapheme.ofStr, Grapheme.chars, tokens_single]
   constructor
   · rintro ⟨ls, ⟨c, hc, rfl⟩, hs⟩
-    obtain ⟨k, v, hk1, hk2, rfl, hv⟩ := hs
-    simp only [Dfa.Spells] at hv
+    obtain ⟨k, u, v, hk1, hk2, rfl, hu, hv⟩ := hs
+    simp only [SpellsA] at hv
     subst hv
     have hk : k = 1 := by simp [Grapheme.ofStr, Grapheme.min, Grapheme.max] at hk1 hk2; omega
     subst hk
-    exact ⟨c, hc, by simp [Grapheme.ofStr, Grapheme.chars]⟩
-  · rintro ⟨c, hc, rfl⟩
-    exact ⟨[Grapheme.ofStr [c]], ⟨c, hc, rfl⟩, 1, [], by simp [Grapheme.ofStr, Grapheme.min],
-      by simp [Grapheme.ofStr, Grapheme.max], by simp [Grapheme.ofStr, Grapheme.chars], rfl⟩
+    rw [powL_one, hat, Expr.atomsDen_single] at hu
+    obtain ⟨x, rfl, hx⟩ := hu
+    exact ⟨c, hc, x, by simp, hx⟩
+  · rintro ⟨c, hc, x, rfl, hx⟩
+    refine ⟨[Grapheme.ofStr [c]], ⟨c, hc, rfl⟩, 1, [x], [], by simp [Grapheme.ofStr, Grapheme.min],
+      by simp [Grapheme.ofStr, Grapheme.max], by simp, ?_, rfl⟩
+    rw [powL_one, hat, Expr.atomsDen_single]
+    exact ⟨x, rfl, hx⟩
 
-theorem denLC_subOfR_iff (cap esc : Bool) (outer : Nat) (e : Expr) (s : Str)
-    (h1 : e.isAlt = false → (denLC false (e.bothR cap esc).1 s ↔ e.strLangR s)) (h2 : (e.bothR cap esc).2.denC false s ↔ e.strLangR s)
+theorem denLC_subOfR_iff (i cap esc : Bool) (outer : Nat) (e : Expr) (s : Str)
+    (h1 : e.isAlt = false → (denLC i (e.bothR cap esc).1 s ↔ e.strLangR i s)) (h2 : (e.bothR cap esc).2.denC i s ↔ e.strLangR i s)
     (halt : e.isAlt = true → outer ≥ 2) :
-    denLC false (subOf cap esc outer e (e.bothR cap esc).1 (e.bothR cap esc).2) s ↔ e.strLangR s := by
+    denLC i (subOf cap esc outer e (e.bothR cap esc).1 (e.bothR cap esc).2) s ↔ e.strLangR i s := by
   unfold subOf
   split
   · rw [denLC_single]; simpa [Pat.denC] using h2
@@ -220,12 +245,12 @@ theorem denLC_subOfR_iff (cap esc : Bool) (outer : Nat) (e : Expr) (s : Str)
 
 mutual
 /-- **the printed `-r` pattern denotes exactly the strings the expression's label sequences spell** -/
-theorem Expr.bothR_den (cap esc : Bool) : ∀ (e : Expr), e.WFS → ∀ s, (∀ c ∈ s, Scalar c) →
-    (e.isAlt = false → (denLC false (e.bothR cap esc).1 s ↔ e.strLangR s)) ∧ ((e.bothR cap esc).2.denC false s ↔ e.strLangR s)
+theorem Expr.bothR_den (i cap esc : Bool) : ∀ (e : Expr), e.WFS → ∀ s, (∀ c ∈ s, Scalar c) →
+    (e.isAlt = false → (denLC i (e.bothR cap esc).1 s ↔ e.strLangR i s)) ∧ ((e.bothR cap esc).2.denC i s ↔ e.strLangR i s)
   | .lit c, h, s, _ => by
     obtain ⟨h1, h2⟩ := litS_gokl c h
-    have key : denLC false (gItemsL cap c) s ↔ (Expr.lit c).strLangR s := by
-      rw [gExactL cap c h1 h2 s]
+    have key : denLC i (gItemsL cap c) s ↔ (Expr.lit c).strLangR i s := by
+      rw [gExactL i cap c h1 h2 s]
       simp only [Expr.strLangR, Expr.lang]
       constructor
       · intro hs; exact ⟨c, rfl, hs⟩
@@ -233,48 +258,46 @@ theorem Expr.bothR_den (cap esc : Bool) : ∀ (e : Expr), e.WFS → ∀ s, (∀ 
     simp only [Expr.bothR, denC_catList]
     exact ⟨fun _ => key, key⟩
   | .cls cs, h, s, hs => by
-    have key : denLC false [Pat.set (classItems cs) false] s ↔ (Expr.cls cs).strLangR s := by
+    have key : denLC i [Pat.set (classItems cs) false] s ↔ (Expr.cls cs).strLangR i s := by
       rw [strLangR_cls, denLC_single]
       simp only [Pat.denC]
       constructor
       · rintro ⟨x, rfl, hx⟩
-        obtain ⟨c, hc, hm⟩ := (classItems_match false cs h.1 h.2.1 x (hs x (by simp))).mp hx
-        rw [chrMatches_false] at hm
-        subst hm
-        exact ⟨x, hc, rfl⟩
-      · rintro ⟨c, hc, rfl⟩
-        exact ⟨c, rfl, (classItems_match false cs h.1 h.2.1 c (h.2.1 c hc)).mpr ⟨c, hc, by simp [chrMatches]⟩⟩
+        obtain ⟨c, hc, hm⟩ := (classItems_match i cs h.1 h.2.1 x (hs x (by simp))).mp hx
+        exact ⟨c, hc, x, rfl, hm⟩
+      · rintro ⟨c, hc, x, rfl, hm⟩
+        exact ⟨x, rfl, (classItems_match i cs h.1 h.2.1 x (hs x (by simp))).mpr ⟨c, hc, hm⟩⟩
     simp only [Expr.bothR, denC_catList]
     exact ⟨fun _ => key, key⟩
   | .cat a b, h, s, hs => by
-    have key : denLC false (subOf cap esc 2 a (a.bothR cap esc).1 (a.bothR cap esc).2 ++
-        subOf cap esc 2 b (b.bothR cap esc).1 (b.bothR cap esc).2) s ↔ (Expr.cat a b).strLangR s := by
+    have key : denLC i (subOf cap esc 2 a (a.bothR cap esc).1 (a.bothR cap esc).2 ++
+        subOf cap esc 2 b (b.bothR cap esc).1 (b.bothR cap esc).2) s ↔ (Expr.cat a b).strLangR i s := by
       rw [denLC_append, strLangR_cat]
       constructor
       · rintro ⟨u, v, rfl, h1, h2⟩
         have hu : ∀ c ∈ u, Scalar c := fun c hc => hs c (by simp [hc])
         have hv : ∀ c ∈ v, Scalar c := fun c hc => hs c (by simp [hc])
-        have ia := Expr.bothR_den cap esc a h.1 u hu
-        have ib := Expr.bothR_den cap esc b h.2 v hv
-        exact ⟨u, v, rfl, (denLC_subOfR_iff cap esc 2 a u ia.1 ia.2 (fun _ => Nat.le_refl _)).mp h1,
-          (denLC_subOfR_iff cap esc 2 b v ib.1 ib.2 (fun _ => Nat.le_refl _)).mp h2⟩
+        have ia := Expr.bothR_den i cap esc a h.1 u hu
+        have ib := Expr.bothR_den i cap esc b h.2 v hv
+        exact ⟨u, v, rfl, (denLC_subOfR_iff i cap esc 2 a u ia.1 ia.2 (fun _ => Nat.le_refl _)).mp h1,
+          (denLC_subOfR_iff i cap esc 2 b v ib.1 ib.2 (fun _ => Nat.le_refl _)).mp h2⟩
       · rintro ⟨u, v, rfl, h1, h2⟩
         have hu : ∀ c ∈ u, Scalar c := fun c hc => hs c (by simp [hc])
         have hv : ∀ c ∈ v, Scalar c := fun c hc => hs c (by simp [hc])
-        have ia := Expr.bothR_den cap esc a h.1 u hu
-        have ib := Expr.bothR_den cap esc b h.2 v hv
-        exact ⟨u, v, rfl, (denLC_subOfR_iff cap esc 2 a u ia.1 ia.2 (fun _ => Nat.le_refl _)).mpr h1,
-          (denLC_subOfR_iff cap esc 2 b v ib.1 ib.2 (fun _ => Nat.le_refl _)).mpr h2⟩
+        have ia := Expr.bothR_den i cap esc a h.1 u hu
+        have ib := Expr.bothR_den i cap esc b h.2 v hv
+        exact ⟨u, v, rfl, (denLC_subOfR_iff i cap esc 2 a u ia.1 ia.2 (fun _ => Nat.le_refl _)).mpr h1,
+          (denLC_subOfR_iff i cap esc 2 b v ib.1 ib.2 (fun _ => Nat.le_refl _)).mpr h2⟩
     simp only [Expr.bothR, denC_catList]
     exact ⟨fun _ => key, key⟩
   | .rep e q, h, s, hs => by
     obtain ⟨rfl, hnr, hwf⟩ := h
     obtain ⟨p, hp, _⟩ := subOf3_singleR cap esc e (Expr.WFS.toWFR e hwf) hnr
-    have key : denLC false (optOf (subOf cap esc 3 e (e.bothR cap esc).1 (e.bothR cap esc).2)) s ↔ (Expr.rep e .question).strLangR s := by
+    have key : denLC i (optOf (subOf cap esc 3 e (e.bothR cap esc).1 (e.bothR cap esc).2)) s ↔ (Expr.rep e .question).strLangR i s := by
       rw [hp, strLangR_opt]
       simp only [optOf, denLC_single, Pat.denC, rangeL]
-      have ie := Expr.bothR_den cap esc e hwf s hs
-      have hsub := denLC_subOfR_iff cap esc 3 e s ie.1 ie.2 (fun _ => by omega)
+      have ie := Expr.bothR_den i cap esc e hwf s hs
+      have hsub := denLC_subOfR_iff i cap esc 3 e s ie.1 ie.2 (fun _ => by omega)
       rw [hp, denLC_single] at hsub
       constructor
       · rintro ⟨k, _, hk, hpow⟩
@@ -299,36 +322,16 @@ theorem Expr.bothR_den (cap esc : Bool) : ∀ (e : Expr), e.WFS → ∀ s, (∀ 
       cases os with
       | nil => exact absurd rfl h.1
       | cons o os => simp [Expr.bothLR]
-    rw [denC_altList false _ hne, strLangR_alt]
-    exact Expr.bothLR_den cap esc os h.2 s hs
-theorem Expr.bothLR_den (cap esc : Bool) : ∀ (os : List Expr), Expr.WFLS os → ∀ s, (∀ c ∈ s, Scalar c) →
-    ((∃ p ∈ Expr.bothLR cap esc os, p.denC false s) ↔ ∃ o ∈ os, o.strLangR s)
+    rw [denC_altList i _ hne, strLangR_alt]
+    exact Expr.bothLR_den i cap esc os h.2 s hs
+theorem Expr.bothLR_den (i cap esc : Bool) : ∀ (os : List Expr), Expr.WFLS os → ∀ s, (∀ c ∈ s, Scalar c) →
+    ((∃ p ∈ Expr.bothLR cap esc os, p.denC i s) ↔ ∃ o ∈ os, o.strLangR i s)
   | [], _, s, _ => by simp [Expr.bothLR]
   | o :: os, h, s, hs => by
-    have io := Expr.bothR_den cap esc o h.2.1 s hs
-    have ios := Expr.bothLR_den cap esc os h.2.2 s hs
+    have io := Expr.bothR_den i cap esc o h.2.1 s hs
+    have ios := Expr.bothLR_den i cap esc os h.2.2 s hs
     simp only [Expr.bothLR, List.mem_cons, exists_eq_or_imp, denC_catList]
     rw [io.1 h.1, ios]
 end
-
-/-- **the printed `-r` pattern, exactly** (plain printing, both anchors): the compiled pattern matches a string of scalar values in full
-iff a label sequence of the expression's symbol-level language spells it -/
-theorem printed_exactR (cap esc : Bool) (e : Expr) (hwf : e.WFS) (s : Str) (hs : ∀ c ∈ s, Scalar c) :
-    ∃ P, Spec.parse (fmtRegExp (cfgPlain cap esc) e) = some (⟨false, false⟩, P) ∧
-      (Spec.fullMatch false P s = true ↔ e.strLangR s) := by
-  have hwr := Expr.WFS.toWFR e hwf
-  refine ⟨_, parse_printedR cap esc e hwr, ?_⟩
-  have hfr := Expr.bothR_fragC cap esc e hwr
-  have hd := Expr.bothR_den cap esc e hwf s hs
-  have hitems : ∀ p ∈ topItemsR cap esc e, p.FragC := by
-    unfold topItemsR
-    split
-    · intro p hp; simp only [List.mem_singleton] at hp; subst hp; exact hfr.2
-    · exact hfr.1
-  rw [fullMatch_anchored_itemsC false _ hitems]
-  unfold topItemsR
-  cases ha : e.isAlt with
-  | true => simp only [ite_true, denLC_single, Pat.denC]; exact hd.2
-  | false => simp only [Bool.false_eq_true, ite_false]; exact hd.1 ha
 
 end Grexv
